@@ -322,6 +322,34 @@ impl Local {
 }
 
 // ---------------------------------------------------------------------------------------------
+// sink logger: dlt-core evaluates the arguments of trace!/warn! only when the log level admits
+// them; several slice / format expressions live there.  The sink formats every record (which
+// evaluates the expressions) and drops the text.  Installed once; the level is Off except during
+// a trace pass.
+// ---------------------------------------------------------------------------------------------
+pub struct Sink;
+impl log::Log for Sink {
+    fn enabled(&self, _: &log::Metadata) -> bool {
+        true
+    }
+    fn log(&self, record: &log::Record) {
+        use std::fmt::Write;
+        thread_local! { static BUF: RefCell<String> = const { RefCell::new(String::new()) }; }
+        BUF.with(|b| {
+            let mut b = b.borrow_mut();
+            b.clear();
+            let _ = write!(b, "{}", record.args());
+        });
+    }
+    fn flush(&self) {}
+}
+pub static SINK: Sink = Sink;
+pub fn install_sink_logger() {
+    log::set_logger(&SINK).ok();
+    log::set_max_level(log::LevelFilter::Off);
+}
+
+// ---------------------------------------------------------------------------------------------
 // families and run context
 // ---------------------------------------------------------------------------------------------
 
@@ -336,8 +364,15 @@ pub struct Family<'a> {
     /// true if 0..size is by construction duplicate-free and too large to hash (2^32 sweep):
     /// the runner then counts states itself instead of hashing
     pub distinct_by_construction: bool,
+    /// number of cases of this family that are re-run with the Trace-level sink logger
+    /// (None: the context's default; Some(0): never)
+    pub trace_budget: Option<u64>,
 }
 impl<'a> Family<'a> {
+    pub fn trace(mut self, budget: u64) -> Self {
+        self.trace_budget = Some(budget);
+        self
+    }
     pub fn new(
         name: impl Into<String>,
         size: u64,
@@ -351,6 +386,7 @@ impl<'a> Family<'a> {
             run: Box::new(run),
             chunk: 0,
             distinct_by_construction: false,
+            trace_budget: None,
         }
     }
     pub fn chunk(mut self, c: u64) -> Self {
@@ -398,6 +434,8 @@ pub struct Ctx {
     pub caps: Mutex<Vec<String>>,
     shards: Vec<Mutex<HashSet<u64>>>,
     pub replay: Option<Value>,
+    /// default number of cases per family re-run under the Trace-level sink logger (0 = none)
+    pub trace_default: AtomicU64,
 }
 
 const SHARDS: usize = 256;
@@ -432,7 +470,15 @@ impl Ctx {
             caps: Mutex::new(vec![]),
             shards: (0..SHARDS).map(|_| Mutex::new(HashSet::new())).collect(),
             replay: None,
+            trace_default: AtomicU64::new(0),
         }
+    }
+    /// Enable the trace pass: every family is followed by a re-run of `budget` evenly spread cases
+    /// with the log level at Trace (family name + ".trace").
+    pub fn enable_trace_pass(&self, budget: u64) {
+        install_sink_logger();
+        self.trace_default.store(budget, Ordering::Relaxed);
+        self.assume("trace pass: after each family an evenly spread subset of its cases is re-run with a Trace-level sink logger installed, so that the arguments of the crate's trace!/warn! statements (slice and format expressions) are evaluated; same oracle");
     }
     pub fn assume(&self, s: &str) {
         self.assumptions.lock().unwrap().push(s.to_string());
@@ -525,8 +571,53 @@ impl Ctx {
         }
     }
 
-    /// Enumerate the whole family on `threads` OS threads (dynamic chunking).
+    /// Enumerate the whole family on `threads` OS threads (dynamic chunking); then, when the trace
+    /// pass is enabled, re-run an evenly spread subset with the log level at Trace.
     pub fn run_family(&self, fam: Family) {
+        let budget = fam.trace_budget.unwrap_or_else(|| self.trace_default.load(Ordering::Relaxed));
+        if let Some(rp) = &self.replay {
+            let traced = format!("{}.trace", fam.name);
+            if rp["family"].as_str() == Some(traced.as_str()) {
+                install_sink_logger();
+                log::set_max_level(log::LevelFilter::Trace);
+                let f2 = Family { name: traced, size: fam.size, about: fam.about, run: fam.run, chunk: fam.chunk, distinct_by_construction: false, trace_budget: Some(0) };
+                self.run_family_plain(f2);
+                log::set_max_level(log::LevelFilter::Off);
+                return;
+            }
+            self.run_family_plain(fam);
+            return;
+        }
+        if budget == 0 || fam.size == 0 {
+            self.run_family_plain(fam);
+            return;
+        }
+        let Family { name, size, about, run, chunk, distinct_by_construction, .. } = fam;
+        let run = std::sync::Arc::new(run);
+        let r1 = run.clone();
+        self.run_family_plain(Family { name: name.clone(), size, about: about.clone(), run: Box::new(move |i, loc| r1(i, loc)), chunk, distinct_by_construction, trace_budget: Some(0) });
+        let stride = (size / budget).max(1);
+        let n = (size + stride - 1) / stride;
+        log::set_max_level(log::LevelFilter::Trace);
+        let r2 = run.clone();
+        let tname = format!("{}.trace", name);
+        self.run_family_plain(Family {
+            name: tname,
+            size: n,
+            about: format!("TRACE PASS (log level Trace, sink logger): every {}th case of: {}", stride, about),
+            run: Box::new(move |j, loc| {
+                // report the index of the underlying case so that a replay addresses it directly
+                loc.cur_index = j * stride;
+                r2(j * stride, loc)
+            }),
+            chunk: if chunk > 0 { chunk } else { 0 },
+            distinct_by_construction: true,
+            trace_budget: Some(0),
+        });
+        log::set_max_level(log::LevelFilter::Off);
+    }
+
+    fn run_family_plain(&self, fam: Family) {
         if let Some(rp) = &self.replay {
             // replay mode: only the named family, only the recorded index
             if rp["family"].as_str() == Some(fam.name.as_str()) {
